@@ -30,7 +30,7 @@ import re
 import time
 import warnings
 
-from common import Check, Driver, Infra, REPO, canon_json, log  # noqa: F401  (common puts REPO first on sys.path)
+from common import Check, Driver, Infra, REPO, canon_json, leanchecker, log  # noqa: F401  (common puts REPO first on sys.path)
 
 BLANKS = " \t\n"
 
@@ -268,6 +268,23 @@ def case_forms(case, stmts):
     return lead, items
 
 
+def core_start(text):
+    """offset of the first character of a statement that is not a blank or part of a LEADING line comment.  (Directly
+    behind a `;` sqlparse leaves blanks and `--` / `# ` line comments with the piece that just ended; the property does
+    not say where comments go, so the span a piece has to cover starts behind them.)"""
+    i = 0
+    while True:
+        while i < len(text) and text[i] in BLANKS:
+            i += 1
+        if text.startswith("--", i) or text.startswith("# ", i):
+            j = text.find("\n", i)
+            if j < 0:
+                return len(text)
+            i = j + 1
+        else:
+            return i
+
+
 def assemble(lead, items):
     """script text and the character span of every statement, from the forms alone (no model involved)"""
     pos = len(render_forms(lead))
@@ -275,7 +292,7 @@ def assemble(lead, items):
     spans = []
     for sf, sepf in items:
         t = render_forms(sf)
-        spans.append((pos, pos + len(t)))
+        spans.append((pos + core_start(t), pos + len(t)))
         out.append(t); pos += len(t)
         u = render_forms(sepf)
         out.append(u); pos += len(u)
@@ -773,6 +790,12 @@ def run(chk):
     if not chk.violations:
         d = part_d(chk, impl, singles)
         log(f"[c05] D done {time.time() - t0:.0f}s: {d}")
+    if chk.tier == "thorough" and chk.lean.build_ok:
+        ok, out = leanchecker(["SqlLineage.Props.C05", "SqlLineage.Proofs.Split", "SqlLineage.Spec.Split",
+                               "SqlLineage.Model.Split"])
+        chk.coverage["leanchecker_ok"] = ok
+        if not ok:
+            raise Infra("leanchecker rejected the compiled C05 modules: " + out[-400:])
     chk.coverage.update({
         "exhaustive": True,
         "exhaustive_space": "E1 (2 statements x every separator of <=3/4 noise atoms containing `;`), E2 (1 statement x every "
